@@ -271,6 +271,41 @@ Theorem C18_summary_budget_suffices :
 Proof. exact summary_budget_suffices_lemma. Qed.
 Print Assumptions C18_summary_budget_suffices.
 
+(* The run-time side of that budget, for the charging discipline of summary.rs (membership test
+   first, one event per inserted row or class step; tied to the source text): every schedule of
+   merge steps, from any duplicate-free starting tables, stays within F * (F + 2L + 2) events ... *)
+Theorem C18_summary_events_are_insertions :
+  forall F L ops g b,
+  sinv F L g -> Forall (sop_ok F L) ops ->
+  Z.of_nat (F * swidth F L) - Z.of_nat (List.length g) <= b ->
+  exists g' b', srun ops g b = Some (g', b') /\ sinv F L g' /\
+    b - b' = Z.of_nat (List.length g') - Z.of_nat (List.length g) /\ 0 <= b'.
+Proof. exact srun_ok. Qed.
+Print Assumptions C18_summary_events_are_insertions.
+
+(* ... hence below the gate the summary fixpoint never runs out of budget: no summary becomes
+   unavailable, the analyses run as usual. *)
+Theorem C18_summary_budget_never_exhausted_below_gate :
+  forall c k F L ops g0,
+  caps_wf k -> counts_wf c -> max_summary_events k < u64_max ->
+  n_functions c = Z.of_nat F -> n_locals c = Z.of_nat L ->
+  first_exceeded_limit c k = None ->
+  sinv F L g0 -> Forall (sop_ok F L) ops ->
+  exists g b, srun ops g0 (max_summary_events k) = Some (g, b) /\ 0 <= b /\
+    max_summary_events k - b = Z.of_nat (List.length g) - Z.of_nat (List.length g0).
+Proof. exact summary_budget_never_exhausted_below_gate. Qed.
+Print Assumptions C18_summary_budget_never_exhausted_below_gate.
+
+(* summary.rs is the only run-time consumer of a cap, and it charges as modelled *)
+Theorem C18_runtime_budgets_follow_source :
+  (GenLimits.budget_charge_sites = budget_charge_sites_modelled /\
+   GenLimits.note_event_body = note_event_modelled /\
+   GenLimits.push_unique_bounded_body = push_unique_bounded_modelled /\
+   GenLimits.class_charge_guard = class_charge_guard_modelled) /\
+  GenLimits.caps_users = caps_users_modelled.
+Proof. exact (conj summary_accounting_matches_source caps_users_match_source). Qed.
+Print Assumptions C18_runtime_budgets_follow_source.
+
 (* ---------------------------------------------------------------- no plan, no pruning *)
 
 Theorem C18_no_plan_never_prunes :
@@ -367,6 +402,21 @@ Example ex_gate_below :
       DAnalysis WUnusedFunction 2; DAnalysis WUnusedAssignment 3; DAnalysis WUnreachable 7],
      Some (mkPlan [1; 3; 7] [2])).
 Proof. vm_compute. reflexivity. Qed.
+
+(* charging every probe instead of every insertion exhausts a budget that covers all rows *)
+Example ex_probe_charging :
+  let x := mkEntry KCallee 0 0 in
+  sinv 1 0 [] /\ Z.of_nat (1 * swidth 1 0) = 3 /\
+  (match push_probe_charged [] x 3 with
+   | Some (g1, b1) => match push_probe_charged g1 x b1 with
+                      | Some (g2, b2) => match push_probe_charged g2 x b2 with
+                                         | Some (g3, b3) => push_probe_charged g3 x b3
+                                         | None => None end
+                      | None => None end
+   | None => None end) = None /\
+  srun [OPush KCallee 0 0; OPush KCallee 0 0; OPush KCallee 0 0; OPush KCallee 0 0] [] 3
+  = Some ([x], 2).
+Proof. exact probe_charging_exhausts. Qed.
 
 (* the prune predicates do distinguish a plan from no plan *)
 Example ex_prune :
